@@ -1,7 +1,7 @@
 // Pipeline G for the writer specifications (C14 a/b): walk the TLC-exported transition relation of
 // spec/StreamWriter.tla (Machine = "fixed" | "grow") against MemoryWriter / DynamicMemoryWriter.
 //   writer_walk --rel <relation.ndjson> --machine fixed|grow --n N --depth D [--random R --len L] [--start K] [--skip-sites ..]
-#include "common/proto.hpp"
+#include "common/proto_main.hpp"
 #include "Stream/MemoryWriter.h"
 #include "Stream/DynamicMemoryWriter.h"
 #include <fstream>
